@@ -36,7 +36,7 @@ def required(tier):
          'directio:on': 20, 'directio:off': 20, 'digitize:on': 30, 'digitize:off': 20, 'multi-file-input': 20, 'length:omitted': 10,
          'length:shorter': 10, 'length:longer': 10, 'aligned-header': 3, 'subblocks>=2': 40,
          'second-recording-flipped-digitize': 30, 'lazy-unit-noise-estimate': 40, 'input:blank-block-or-dead-polarisation': 8,
-         'block>10000-samples-per-stream': 15}
+         'block>10000-samples-per-stream': 15, 'window:hann': 30, 'window:blackman': 30, 'window:boxcar': 30}
     return {'buckets': b, 'counters': {'decode_blocks_compared': 200, 'gain_calls_observed': 400, 'samples_compared': 50000},
             'checks': 1000, 'nontrivial': 60}
 
@@ -47,7 +47,7 @@ def gen_cases(seed, tier):
     cases = []
     for i in range(n):
         cfg = work_raw.gen_config(rng, tier, i=i, P=int(common.pick(rng, [8, 16, 32])), tones=[], nblocks=int(rng.integers(1, 7)),
-                                  bpf=int(rng.integers(1, 4)), mult=int(rng.integers(1, 9)), window='hamming',
+                                  bpf=int(rng.integers(1, 4)), mult=int(rng.integers(1, 9)), window=common.stratum(i, 8, ['hamming', 'hamming', 'hann', 'blackman', 'boxcar']),
                                   period_dig=1, period_rq=1, N_dig=10000, N_rq=10000, dig_bits=8, dig_fwhm=32.0, rq_fwhm=32.0,
                                   noise_std=1.0, bg_noise_std=0.0)
         cfg['nchan'] = int(rng.integers(1, min(cfg['P'] // 2, 5) + 1))
@@ -165,7 +165,8 @@ def _run(stg, c, cfg, d, R):
             s.add_constant_signal(f_start=cfg['fch1'] + (cfg['start_chan'] + cfg['nchan'] // 2 + c['tone_chan']) * chan_bw,
                                   drift_rate=0.0, level=c['tone_level'])
     with common.quiet():
-        rvb = v.RawVoltageBackend.from_data(stem_in, src, digitizer=v.RealQuantizer(), filterbank=v.PolyphaseFilterbank(num_taps=cfg['M'], num_branches=cfg['P']),
+        rvb = v.RawVoltageBackend.from_data(stem_in, src, digitizer=v.RealQuantizer(),
+                                            filterbank=v.PolyphaseFilterbank(num_taps=cfg['M'], num_branches=cfg['P'], window_fn=cfg['window']),
                                             start_chan=cfg['start_chan'], num_subblocks=c['nsub_out'])
     R.check(rvb.block_size == sz['block_size'] and rvb.num_bits == cfg['bits'] and rvb.num_chans == cfg['nchan'] and
             rvb.num_pols == cfg['npol'] and rvb.num_antennas == cfg['nants'], 'from_data-parameters')
@@ -184,6 +185,28 @@ def _run(stg, c, cfg, d, R):
                 rvb.filterbank[a][p].estimate_channelized_stds(factor=300, seed=c['est_seed'] + 7 * a + p)
             cstd[(a, p)] = np.array(rvb.filterbank[a][p].channelized_stds, dtype=float).copy()
     window = np.array(rvb.filterbank[0][0].window, dtype=float)
+    R.bucket('window:' + cfg['window'])
+
+    def unit_noise_check(est, factor, tag):
+        # what unit white noise becomes behind THIS filterbank, from its coefficients alone:
+        #   var Re X_k = (1/P) sum_j h_j^2 cos^2(2 pi k j / P),  var Im X_k = (1/P) sum_j h_j^2 sin^2(...),  pooled over k < P/2
+        P_, M_ = cfg['P'], cfg['M']
+        j_ = np.arange(M_ * P_)
+        k_ = np.arange(P_ // 2)[:, None]
+        ph = 2 * np.pi * ((k_ * j_[None, :]) % P_) / P_
+        h2 = window[None, :] ** 2
+        want = np.array([np.sqrt(np.mean(np.sum(h2 * np.cos(ph) ** 2, axis=1)) / P_), np.sqrt(np.mean(np.sum(h2 * np.sin(ph) ** 2, axis=1)) / P_)])
+        n_eff = max(8.0, (factor - M_) * (P_ // 2) / M_)
+        tol = 6.0 / np.sqrt(2.0 * n_eff) + 1e-3
+        est = np.asarray(est, dtype=float)
+        rel = np.abs(est - want) / want
+        R.count('unit_noise_estimates_judged')
+        R.maximum('unit_noise_rel_dev_over_band', float(np.max(rel / tol)))
+        R.check(bool(np.all(rel <= tol)), 'unit-noise-deviation-not-that-of-this-filterbank' + tag, got=est.tolist(), want=want.tolist(), band=tol,
+                window=cfg['window'], M=M_, P=P_)
+    for k_est in sorted(cstd):
+        unit_noise_check(cstd[k_est], 300, ':prepared')
+
     def one_recording(digitize, out_name, tag):
         # ---- monitors
         decoded_log, gain_log = [], []
@@ -223,6 +246,7 @@ def _run(stg, c, cfg, d, R):
                         R.violate('unit-noise-estimate-never-made', antenna=a_, pol=p_)
                         return
                     cstd[(a_, p_)] = np.array(est_, dtype=float).copy()
+                    unit_noise_check(cstd[(a_, p_)], 10000, ':estimated-by-the-backend')
         out_files = sorted(os.path.join(d, f) for f in os.listdir(d) if f.startswith(out_name + '.'))
         try:
             out_blocks = work_raw.read_blocks(out_files)
